@@ -111,7 +111,7 @@ Section M.
 
   (* ---------- the fragment the invariant is proved for ---------- *)
   Fixpoint flat_free (t : term) : bool :=
-    match t with TLit _ | TVar _ => true | TMap _ t' => flat_free t' | TFlat _ _ => false end.
+    match t with TLit _ | TVar _ => true | TMap _ t' => flat_free t' | TFlat _ _ | TConcat _ _ => false end.
   Definition tclosed (t : term) : bool := flat_free t && forallb (fun x => existsb (Nat.eqb x) U) (tvars t).
   Fixpoint basic (c : cond) : bool :=
     match c with
@@ -170,7 +170,7 @@ Section M.
   Lemma term_ext t : flat_free t = true -> forall b b' v e,
     In (b', v) (eval_term t b) -> agreesb b' e = true -> agreesb b e = true.
   Proof.
-    induction t as [w|x|m t IH|id t IH]; intros F b b' v e; cbn [EvalPure.eval_term]; cbn [flat_free] in F; try discriminate.
+    induction t as [w|x|m t IH|id t IH|id t IH]; intros F b b' v e; cbn [EvalPure.eval_term]; cbn [flat_free] in F; try discriminate.
     - intros [H|[]]; injection H as <- _; auto.
     - destruct (lookup b x) eqn:L.
       + intros [H|[]]; injection H as <- _; auto.
@@ -187,7 +187,7 @@ Section M.
     tcount (eval_term t b) e = 1 /\
     (forall b' v, In (b', v) (eval_term t b) -> agreesb b' e = true -> v = tval t e).
   Proof.
-    unfold tclosed. induction t as [w|x|m t IH|id t IH]; intros C b e A V; cbn [flat_free tvars forallb] in C;
+    unfold tclosed. induction t as [w|x|m t IH|id t IH|id t IH]; intros C b e A V; cbn [flat_free tvars forallb] in C;
       cbn [EvalPure.eval_term Spec.tval]; try discriminate.
     - split; [unfold tcount; cbn [filter fst]; rewrite A; reflexivity|].
       intros b' v [H|[]] _. injection H as _ <-. reflexivity.
